@@ -343,6 +343,13 @@ def correspond(ctx):
             dis.append(Disagreement('c03.state', 'state:' + _sig([tuple(o) for o in rep['ops']][:k + 1], None),
                                     f'after op {k} ({ln.split(" ")[3].split(";")[k]}) model says {rs[k] if k < len(rs) else "?"} '
                                     f'but the object shows {es[k] if k < len(es) else "?"}', dict(rep, first_diff=k), False))
+    # object-history fuzzer (hist.py): ANY public methods in sequence on one long-lived fitter, the caller re-using its buffers, one
+    # argument (or one axis of a pair) changed between two calls of the same method: every call must give what a fresh fitter gives
+    from . import hist
+    for spec, f in hist.campaign(ctx, rng, 'fresh', 60 if ctx.thorough else 25, 20 if ctx.thorough else 8):
+        dis.append(Disagreement('c03.fuzz', f'fuzz:{"2d" if spec["two_d"] else "1d"}:{spec["steps"][f[0]]["method"] if f[0] < len(spec["steps"]) else "?"}',
+                                f'history on one {"Baseline2D" if spec["two_d"] else "Baseline"} (created {"without x" if spec["mode"] == "none" else "with x"}): '
+                                f'{hist.describe(spec)[:700]} — call {f[0] + 1}: {f[2]}', {'kind': 'fuzz', 'spec': spec}, True))
     return dis
 
 
@@ -387,6 +394,10 @@ def search(ctx, hints, lean_failed):
 
 def replay(ctx, data):
     r = data['replay']
+    if r.get('kind') == 'fuzz':
+        from . import hist
+        f = [x for x in hist.run(r['spec'], want=('fresh',)) if x[1] == 'fresh']
+        return f'call {f[0][0] + 1}: {f[0][2]}' if f else None
     rng = np.random.default_rng(0)
     given = tuple(r['given']) if r['given'] else None
     ops = [tuple(o) for o in r['ops']]
